@@ -11,6 +11,7 @@
 #include "common.hpp"
 #include "reclaimers.hpp"
 #include <map>
+#include <sched.h>
 #include <memory>
 #include <optional>
 
@@ -130,6 +131,12 @@ struct Client {
         }
       } else if (n == "rgn") {
         if (a) th.rg.emplace(); else th.rg.reset();
+      } else if (n == "sig") {        // harness-level ordering between client threads (directed scenarios): set flag a
+        xv::sync_set(a);
+      } else if (n == "wai") {        // wait for flag a
+        xv::sync_wait(a);
+      } else if (n == "wex") {        // wait until client thread a has exited completely (its reclaimer state is torn down)
+        xv::wait_exit(a);
       }
     } catch (const std::exception& e) {
       // bad_hazard_pointer_alloc / bad_hazard_era_alloc
